@@ -3414,6 +3414,111 @@ def c10_set_codepage_group(mir, ctx):
     return [g]
 
 
+def c10_size_law_group(mir, ctx):
+    """PropertyValue::write against PropertyValue::encoded_size_including_padding for EVERY value kind
+    and EVERY code page / string: CodePage::encode is an uninterpreted function of (code page,
+    string) whose result has a symbolic length L; the bytes `write` hands to the writer are counted
+    from its MIR (padding loop unrolled) and compared with the size the offset table uses."""
+    psrc = open(os.path.join(REPO, "src/internal/propset.rs")).read()
+    pv = enum_variants(psrc, "PropertyValue")
+    f_write = [f for n, fs in mir.fns.items() for f in fs if n.endswith("::write") and f.args and "PropertyValue" in f.args[0][1]]
+    f_size = [f for n, fs in mir.fns.items() for f in fs if n.endswith("::encoded_size_including_padding")]
+    if len(f_write) != 1 or len(f_size) != 1:
+        raise EncodingError("PropertyValue::write / encoded_size_including_padding not found uniquely (%d, %d)" % (len(f_write), len(f_size)))
+    g = Group("value_size_law", ["propset::PropertyValue::write", "propset::PropertyValue::encoded_size_including_padding"], confirm=_c10_codepage_confirm,
+              note="for every kind of property value, every code page and every string: the number of bytes write() hands to the writer on its "
+                   "successful path equals encoded_size_including_padding() -- the size PropertySet::write uses for the offset table -- and is a "
+                   "multiple of 4; both take the string's length from the same CodePage::encode(code page, string)")
+    lens_memo = {}
+
+    def what(ex, a):
+        v = ex.load(a)
+        while isinstance(v, RefV):
+            v = ex.load(v.target)
+        return getattr(v, "what", repr(v))
+
+    def m_encode(ex, callee, args, pc, events):
+        return [(pc, events + [("encode", what(ex, args[0]), what(ex, args[1]))], OpaqueV("encoded(%s,%s)" % (what(ex, args[0]), what(ex, args[1]))))]
+
+    def m_len(ex, callee, args, pc, events):
+        k = what(ex, args[0])
+        if k not in lens_memo:
+            lens_memo[k] = IntV(ctx.fresh_int("encoded_len", None, 0, 0x7fffffff).term, "usize")
+        return [(pc, events, lens_memo[k])]
+
+    def m_w(nbytes):
+        return lambda ex, callee, args, pc, events: [(pc, events + [("w", str(nbytes))], EnumV(variant=0, fields=[TupleV([])])),
+                                                     (pc, events + [("w-err",)], EnumV(variant=1, fields=[OpaqueV("io::Error")]))]
+
+    def m_write_all(ex, callee, args, pc, events):
+        k = what(ex, args[1])
+        k = re.sub(r"^slice:", "", k)
+        if k not in lens_memo:
+            lens_memo[k] = IntV(ctx.fresh_int("encoded_len", None, 0, 0x7fffffff).term, "usize")
+        return [(pc, events + [("w", lens_memo[k].term)], EnumV(variant=0, fields=[TupleV([])])), (pc, events + [("w-err",)], EnumV(variant=1, fields=[OpaqueV("io::Error")]))]
+
+    def m_range_next(ex, callee, args, pc, events):
+        r = ex.load(args[0])
+        while isinstance(r, RefV):
+            r = ex.load(r.target) if not isinstance(r.target, (EnumV, TupleV)) else r.target
+        st = ex.heap.setdefault("$range", {})
+        key = "r"
+        if key not in st:
+            st[key] = 0
+        end = r.fields[1] if isinstance(r, EnumV) and len(r.fields) == 2 else None
+        if not isinstance(end, IntV):
+            raise EncodingError("Range::next over %r" % (r,))
+        k = st[key]
+        hp_some = copy.deepcopy(ex.heap)
+        hp_some["$range"][key] = k + 1
+        return [(pc + ["(< %d %s)" % (k, end.term)], events, EnumV(variant=1, fields=[M.mk_int(k, "u32")]), hp_some),
+                (pc + ["(>= %d %s)" % (k, end.term)], events, EnumV(variant=0, fields=[]), copy.deepcopy(ex.heap))]
+
+    lens = {}
+    it_models, what_of, coll = iter_models(ctx, lens)
+    models = [(r"CodePage::encode$", m_encode), (r"Vec::<u8>::len$", m_len), (r"String::as_str$|<String as Deref>::deref$|<Vec<u8> as Deref>::deref$", lambda ex, callee, args, pc, events: [(pc, events, OpaqueV(what(ex, args[0])))]),
+              (r"WriteBytesExt>::write_u32::<", m_w(4)), (r"WriteBytesExt>::write_i32::<", m_w(4)), (r"WriteBytesExt>::write_u16::<", m_w(2)), (r"WriteBytesExt>::write_i16::<", m_w(2)),
+              (r"WriteBytesExt>::write_u8$", m_w(1)), (r"WriteBytesExt>::write_i8$", m_w(1)), (r"WriteBytesExt>::write_u64::<", m_w(8)), (r"WriteBytesExt>::write_i64::<", m_w(8)),
+              (r"as (std::io::)?Write>::write_all$", m_write_all), (r"Timestamp::write_to::<", m_w(8)),
+              (r"<std::ops::Range<u32> as Iterator>::next$", m_range_next),
+              (r"<std::ops::Range<u32> as IntoIterator>::into_iter$", lambda ex, callee, args, pc, events: [(pc, events, ex.load(args[0]))])] + it_models
+    n = 0
+    for vname in pv:
+        val = EnumV(variant=pv.index(vname), fields=[OpaqueV("payload")])
+        exs = M.Exec(mir, ctx, models=models, havoc_unknown=True)
+        exs.enum_index = {v: i for i, v in enumerate(pv)}
+        sizes = [o for o in exs.run(f_size[0], [RefV(val), OpaqueV("codepage")]) if o.kind == "return"]
+        exw = M.Exec(mir, ctx, models=models, havoc_unknown=True)
+        exw.enum_index = exs.enum_index
+        exw.max_revisit = 6
+        outs = exw.run(f_write[0], [RefV(val), OpaqueV("writer"), OpaqueV("codepage")])
+        outs = outs + exw._pending_panics
+        exw._pending_panics = []
+        for so in sizes:
+            if not isinstance(so.value, IntV):
+                raise EncodingError("encoded_size_including_padding(%s) returns %r" % (vname, so.value))
+            g.queries.append(Query("size_mod4_%s_%d" % (vname, len(g.queries)), so.pc + ["(not (= (mod %s 4) 0))" % so.value.term], "unsat", note="the size of a %s value is not a multiple of 4" % vname))
+            for k, o in enumerate(outs):
+                if o.kind == "panic":
+                    g.queries.append(Query("write_panic_%s_%d" % (vname, len(g.queries)), so.pc + o.pc, "unsat", note="write(%s) can panic: %s" % (vname, o.msg)))
+                    continue
+                if o.kind != "return" or not (isinstance(o.value, EnumV) and o.value.variant in (0, "Ok")) or any(e[0] == "w-err" for e in o.events):
+                    continue
+                n += 1
+                total = "(+ 0 %s)" % " ".join(e[1] for e in o.events if e[0] == "w") if any(e[0] == "w" for e in o.events) else "0"
+                g.queries.append(Query("size_%s_%d" % (vname, len(g.queries)), so.pc + o.pc + ["(not (= %s %s))" % (total, so.value.term)], "unsat", get={t.term: t.term for t in lens_memo.values()},
+                                       note="write() emits a number of bytes for a %s value that differs from the size used for the offset table" % vname))
+                enc_w = [e for e in o.events if e[0] == "encode"]
+                enc_s = [e for e in so.events if e[0] == "encode"]
+                if enc_w != enc_s:
+                    g.queries.append(Query("same_encode_%s_%d" % (vname, len(g.queries)), so.pc + o.pc, "unsat", note="write() and the size computation do not take the length from the same CodePage::encode call: %r vs %r" % (enc_w, enc_s)))
+                if len(g.witness) < 40:
+                    g.witness.append(Query("w_%s_%d" % (vname, k), so.pc + o.pc, "sat"))
+    if n < len(pv):
+        raise EncodingError("value size law: only %d successful write paths for %d value kinds" % (n, len(pv)))
+    return [g]
+
+
 def _c10_codepage_confirm(model, native):
     out = native("native::protocol::replay_summary_codepages", {})
     if not out.get("_ran"):
@@ -3549,7 +3654,7 @@ def _proto(which):
 
 
 BUILDERS = {"C18": c18_groups, "C19": c19_groups, "C14": c14_groups, "C20": c20_all, "C09": c20_groups,
-            "C01": _proto({"mutators", "finish", "close"}), "C10": (lambda mir, ctx: _proto({"mutators", "finish"})(mir, ctx) + c10_set_codepage_group(mir, ctx)),
+            "C01": _proto({"mutators", "finish", "close"}), "C10": (lambda mir, ctx: _proto({"mutators", "finish"})(mir, ctx) + c10_set_codepage_group(mir, ctx) + c10_size_law_group(mir, ctx)),
             "C15": _proto({"finish", "close"}), "C16": (lambda mir, ctx: _proto({"readonly"})(mir, ctx) + c16_loaded_pool_group(mir, ctx)), "C08": (lambda mir, ctx: c08_all(mir, ctx) + _proto({"finish"})(mir, ctx)), "C04": (lambda mir, ctx: _proto({"reject"})(mir, ctx) + c04_create_table_group(mir, ctx) + c05_update_group(mir, ctx) + c05_insert_group(mir, ctx)), "C11": c11_all, "C07": c07_insert_gate_group, "C12": c12_all, "C05": c05_all, "C13": c13_constructor_group, "C03": c03_all}
 
 
